@@ -82,7 +82,7 @@ func main() {
 			rep := 1
 			if tier == "thorough" {
 				nm, ne, ns = 20000, 12000, 8000
-				rep = 3
+				rep = 8
 			}
 			var bs []kit.Batch
 			add := func(kind string, n int) {
